@@ -270,7 +270,23 @@ pub broadcast axiom fn axiom_string_str_obeys()
 }
 use shim::*;
 use shim::{Map, HashMap, Value};
-pub mod serde_json { pub use crate::shim::{Map, Value}; }
+pub mod serde_json {
+    use vstd::prelude::*;
+    pub use crate::shim::{Map, Value, J};
+    #[verifier::external_body]
+    pub struct SerdeError { _p: u8 }
+    impl SerdeError { #[verifier::external_body] pub fn to_string(&self) -> String { unimplemented!() } }
+    impl vstd::std_specs::fmt::DisplaySpecImpl for SerdeError {
+        open spec fn fmt_req(&self, f: &core::fmt::Formatter) -> bool { true }
+    }
+    #[verifier::external]
+    impl core::fmt::Display for SerdeError { fn fmt(&self, _f: &mut core::fmt::Formatter<'_>) -> core::fmt::Result { unimplemented!() } }
+    pub trait FromJ: Sized { spec fn from_j(j: J) -> Option<Self>; }
+    #[verifier::external_body]
+    pub fn from_value<T: FromJ>(v: Value) -> (r: Result<T, SerdeError>)
+        ensures match r { Ok(x) => T::from_j(crate::shim::jv(v)) == Some(x), Err(_) => T::from_j(crate::shim::jv(v)) is None }
+    { unimplemented!() }
+}
 pub assume_specification<T: Clone> [<T as std::borrow::ToOwned>::to_owned] (x: &T) -> (r: T) ensures r == *x;
 pub assume_specification<T: PartialEq> [<[T]>::contains] (s: &[T], x: &T) -> (r: bool)
     ensures r == slice_contains_spec(s@, *x);
